@@ -35,7 +35,8 @@ TRUSTED = ['Coq 8.16.1 kernel (coqc; coqchk in the thorough tier)',
            '(private helper lentil.detector._propagate_ray) producing the deposits handed to the model',
            'IEEE double -> int64 conversion outside the int64 range yields INT64_MIN (x86-64 behaviour, modelled in cast_int64)',
            'float arithmetic: one correctly rounded operation = rounding of the exact rational result (used to compare exactly)']
-ASSUMPTIONS = ['finite float inputs (no NaN/inf); frames 0-d, or 2-d with positive dimensions',
+ASSUMPTIONS = ['finite inputs (no NaN/inf) of dtype float64/float32/int64/int32/uint16/uint8/bool whose values are exactly '
+               'representable as doubles; frames 0-d, or 2-d with positive dimensions (dark frames also 1-d)',
                'seed is an int or a list of ints (seed=None is non-deterministic by definition and excluded)',
                'binary masks for power_spectrum; comparison tolerance 1e-12 relative there (sqrt, FFT), exact elsewhere',
                'Gaussian shot noise: non-negativity only claimed in the documented large-count regime (lambda >= 1000)']
@@ -135,8 +136,20 @@ def enc_arr_int(a):
     return out
 
 
+DTYPES = ['float64', 'float32', 'int64', 'int32', 'uint16', 'uint8', 'bool']
+DT_MAX = {'float32': 2.0 ** 24, 'int64': 2.0 ** 53, 'int32': 2.0 ** 31 - 1, 'uint16': 65535.0, 'uint8': 255.0, 'bool': 1.0}
+
+
 def img_of(c):
-    return np.array(c['img'], dtype=float)
+    """the input frame in the dtype the case asks for (default float64); every stored value is exactly representable in
+    that dtype, so the typed frame and its float64 image denote the same numbers"""
+    a = np.array(c['img'], dtype=float)
+    dt = c.get('dtype', 'float64')
+    if dt == 'float64':
+        return a
+    t = a.astype(dt)
+    assert np.array_equal(t.astype(float), a), 'case values are not representable in ' + dt
+    return t
 
 
 # ---- the draws the implementation uses, re-created from the seed (the oracle is queried with the same request)
@@ -160,8 +173,26 @@ def read_draw(c):
     return np.random.default_rng(seed_of(c)).normal(loc=0.0, scale=c['electrons'], size=img.shape)
 
 
+def dark_rate(c):
+    """the rate in the Python/numpy type the case asks for (the stored value is representable in it)"""
+    t = c.get('rate_type', 'float')
+    r = {'float': float, 'int': int, 'int64': np.int64, 'float32': np.float32, 'uint16': np.uint16}[t](c['rate'])
+    assert float(r) == c['rate'], 'rate not representable as ' + t
+    return r
+
+
 def dark_shape(c):
-    return tuple(c['shape']) if c['shape'] is not None else None
+    if c['shape'] is None:
+        return None
+    if isinstance(c['shape'], int):
+        return (c['shape'],)         # shape=k: a 1-d frame of k pixels
+    return tuple(c['shape'])
+
+
+def dark_shape2(c):
+    """the 2-d shape under which the model sees the frame"""
+    shp = dark_shape(c) or (1,)
+    return (1, shp[0]) if len(shp) == 1 else shp
 
 
 def dark_draw(c):
@@ -287,6 +318,7 @@ def rnd_counts(rng, n, m, method):
     return img
 
 
+MASK_DTYPES = ['float', 'int', 'bool', 'uint8', 'int32', 'float32', 'uint16']
 PS_PIXELSCALES = [1.0, 1 / 64, 1 / 256, 0.01, 0.3]
 PS_HPFS = [1.0, 5.0, 8.0, 20.0, 2.5]
 PS_EXPS = [1.0, 2.0, 3.0, 2.5, 11 / 3]
@@ -295,6 +327,15 @@ PS_RMS = [1.0, 50e-9, 25e-9, 2.5, -3e-8]
 
 def other(rng, pool, cur):
     return rng.choice([v for v in pool if v != cur])
+
+
+def bump(v, dt):
+    """another valid sample value of the same dtype"""
+    if dt == 'bool':
+        return 1.0 - v
+    if dt == 'float64':
+        return v * 2 + 3.5
+    return float((int(v) + 7) % 200)
 
 
 def vary(rng, c):
@@ -324,7 +365,7 @@ def vary(rng, c):
             d['method'] = 'gaussian' if c['method'] == 'poisson' else 'poisson'
         else:
             i, j = rng.randrange(len(d['img'])), rng.randrange(len(d['img'][0]))
-            d['img'][i][j] = d['img'][i][j] * 2 + 3.0
+            d['img'][i][j] = bump(d['img'][i][j], c.get('dtype', 'float64'))
     elif op == 'read':
         f = rng.choice(['seed', 'seed', 'electrons', 'img'])
         if f == 'seed':
@@ -333,7 +374,7 @@ def vary(rng, c):
             d['electrons'] = other(rng, [0.0, 1.0, 2.5, 10.0, 100.0], c['electrons'])
         else:
             i, j = rng.randrange(len(d['img'])), rng.randrange(len(d['img'][0]))
-            d['img'][i][j] = d['img'][i][j] + 17.5
+            d['img'][i][j] = bump(d['img'][i][j], c.get('dtype', 'float64'))
     elif op == 'dark':
         f = rng.choice(['seed', 'seed', 'rate', 'fpn'])
         if f == 'seed':
@@ -358,17 +399,23 @@ def sequences(rng, tier):
                 n, m = max(n, 2), max(m, 3)
                 mask = [[1 if rng.random() < 0.7 else 0 for _ in range(m)] for _ in range(n)]
                 mask[0][0] = 1
-                base = {'op': 'ps', 'seed': rnd_seed(rng), 'mask': mask, 'mask_dtype': rng.choice(['float', 'int', 'bool']),
+                base = {'op': 'ps', 'seed': rnd_seed(rng), 'mask': mask, 'mask_dtype': rng.choice(MASK_DTYPES),
                         'pixelscale': rng.choice(PS_PIXELSCALES), 'rms': rng.choice(PS_RMS), 'hpf': rng.choice(PS_HPFS),
                         'exp': rng.choice(PS_EXPS)}
             elif op == 'shot':
                 n, m = rnd_shape(rng, 4)
+                dt = rnd_dtype(rng)
                 base = {'op': 'shot', 'method': rng.choice(['poisson', 'gaussian']), 'seed': rnd_seed(rng),
                         'img': [[rng.choice([0.0, 2.5, 40.0, 1e3, 1e6]) + rng.randint(0, 9) for _ in range(m)] for _ in range(n)]}
+                if dt != 'float64':
+                    base.update(img=rnd_typed_counts(rng, n, m, dt, signed_ok=False), dtype=dt)
             elif op == 'read':
                 n, m = rnd_shape(rng, 4)
+                dt = rnd_dtype(rng)
                 base = {'op': 'read', 'seed': rnd_seed(rng), 'electrons': rng.choice([1.0, 2.5, 10.0]),
                         'img': [[float(rng.randint(0, 200)) for _ in range(m)] for _ in range(n)]}
+                if dt != 'float64':
+                    base.update(img=rnd_typed_counts(rng, n, m, dt, signed_ok=False), dtype=dt)
             else:
                 n, m = rnd_shape(rng, 4)
                 base = {'op': 'dark', 'seed': rnd_seed(rng), 'rate': rng.choice([7.0, 100.0, 100.7]), 'shape': [n, m],
@@ -386,8 +433,53 @@ def sequences(rng, tier):
             yield c
 
 
+def rnd_dtype(rng):
+    return 'float64' if rng.random() < 0.4 else rng.choice(DTYPES[1:])
+
+
+def rnd_typed_counts(rng, n, m, dt, signed_ok=True):
+    """count frames whose values are exactly representable in dtype dt (integers for the integer dtypes)"""
+    hi = DT_MAX[dt]
+    def one():
+        if dt == 'bool':
+            return float(rng.randint(0, 1))
+        if dt == 'float32':
+            return float(np.float32(rng.choice([0.0, 0.5, 3.75, rng.random() * 50, float(rng.randint(0, 5000)), 1e6 * rng.random()])))
+        r = rng.random()
+        if r < 0.5:
+            return float(rng.randint(0, min(40, int(hi))))
+        if r < 0.85:
+            return float(rng.randint(0, int(min(hi, 60000))))
+        return float(rng.randint(0, int(min(hi, 2.0 ** 40))))
+    img = [[one() for _ in range(m)] for _ in range(n)]
+    t = rng.random()
+    i, j = rng.randrange(n), rng.randrange(m)
+    if signed_ok and dt in ('int64', 'int32', 'float32') and t < 0.12:
+        img[i][j] = float(rng.choice([-1, -7, -30000]))
+    elif signed_ok and dt == 'int64' and t < 0.24:
+        # exactly representable both as int64 and as double: at the bound (accepted), 1024 above (refused), 2^62
+        img[i][j] = rng.choice([9223372006484770816.0, 9223372006484771840.0, 2.0 ** 62])
+    elif signed_ok and dt == 'float32' and t < 0.2:
+        img[i][j] = float(np.float32(1e19))
+    return img
+
+
 def generate(rng, tier):
     yield from sequences(rng, tier)
+    kd = 24 if tier == 'quick' else 240
+    for _ in range(kd):       # input frames of every supported dtype (integer, unsigned, float32, bool): same draws, same model
+        n, m = rnd_shape(rng, 5)
+        dt = rng.choice(DTYPES[1:])
+        for method in ('poisson', 'gaussian'):
+            yield {'op': 'shot', 'method': method, 'seed': rnd_seed(rng), 'img': rnd_typed_counts(rng, n, m, dt), 'dtype': dt}
+        dt = rng.choice(DTYPES[1:])
+        yield {'op': 'read', 'seed': rnd_seed(rng), 'img': rnd_typed_counts(rng, n, m, dt, signed_ok=False), 'dtype': dt,
+               'electrons': rng.choice([1.0, 2.5, 10.0, 100.0, 0.3])}
+        rt = rng.choice(['int', 'int64', 'float32', 'uint16'])
+        rate = float(np.float32(rng.random() * 300)) if rt == 'float32' else float(rng.randint(0, 3000))
+        shape = rng.choice([[n, m], [n, m], n * m + 1])
+        yield {'op': 'dark', 'seed': rnd_seed(rng), 'rate': rate, 'rate_type': rt, 'shape': shape,
+               'shape_form': rng.choice(['tuple', 'list', 'array']), 'fpn': rng.choice([0.0, 0.1, 0.25, 0.4])}
     k = 40 if tier == 'quick' else 400
     for _ in range(k):        # shot noise, both methods
         for method in ('poisson', 'gaussian'):
@@ -421,7 +513,7 @@ def generate(rng, tier):
         else:
             mask = [[1 if rng.random() < 0.6 else 0 for _ in range(m)] for _ in range(n)]
         yield {'op': 'ps', 'seed': rnd_seed(rng), 'mask': mask,
-               'mask_dtype': rng.choice(['float', 'int', 'bool']),
+               'mask_dtype': rng.choice(MASK_DTYPES),
                'pixelscale': rng.choice([1.0, 1 / 64, 1 / 256, 0.01, rng.random() + 0.01]),
                'rms': rng.choice([1.0, 50e-9, 25e-9, 2.5, 0.0, -3e-8, rng.random()]),
                'hpf': rng.choice([1.0, 5.0, 8.0, 20.0, rng.random() * 30 + 0.1]),
@@ -453,9 +545,11 @@ def classify(c):
     if c['op'] == 'shot':
         img = as2d(c['img'])
         k = 'neg' if img.min() < 0 else ('big' if img.max() > LAM_MAX else 'ok')
-        return f'shot/{c["method"]}/{k}'
+        return f'shot/{c["method"]}/{k}' + ('/' + c['dtype'] if 'dtype' in c else '')
     if c['op'] == 'dark':
-        return 'dark/' + ('fpn' if c['fpn'] > 0 else 'nofpn')
+        return 'dark/' + ('fpn' if c['fpn'] > 0 else 'nofpn') + ('/' + c['rate_type'] if 'rate_type' in c else '')
+    if c['op'] == 'read' and 'dtype' in c:
+        return 'read/' + c['dtype']
     return c['op']
 
 
@@ -469,7 +563,7 @@ def nontrivial(c):
     if op == 'read':
         return as2d(c['img']).size > 1 and c['electrons'] > 0
     if op == 'dark':
-        return c['shape'] is not None and c['shape'][0] * c['shape'][1] > 1
+        return c['shape'] is not None and int(np.prod(dark_shape(c))) > 1
     if op == 'ps':
         mk = np.array(c['mask'])
         return bool(mk.size > 2 and mk.sum() > 0 and (mk.shape[0] != mk.shape[1] or mk.sum() < mk.size))
@@ -500,7 +594,7 @@ def encode(c):
             return None
         return [3] + enc_arr_q(img_of(c)) + enc_arr_q(read_draw(c))
     if op == 'dark':
-        shp = dark_shape(c) or (1, 1)
+        shp = dark_shape2(c)
         return [4] + C.enc_q(c['rate']) + [shp[0], shp[1]] + C.enc_q(c['fpn']) + enc_arr_q(as2d(dark_draw(c)).reshape(shp))
     if op == 'ps':
         filt, mask, s = ps_inputs(c)
@@ -582,11 +676,15 @@ def call_of(c):
         img = img_of(c)
         return lambda: lentil.detector.read_noise(img.copy(), c['electrons'], seed=seed_of(c))
     if op == 'dark':
+        rate = dark_rate(c)
         if c['shape'] is None:
-            return lambda: lentil.detector.dark_current(c['rate'], fpn_factor=c['fpn'], seed=seed_of(c))
-        return lambda: lentil.detector.dark_current(c['rate'], tuple(c['shape']), c['fpn'], seed=seed_of(c))
+            return lambda: lentil.detector.dark_current(rate, fpn_factor=c['fpn'], seed=seed_of(c))
+        shp = c['shape'] if isinstance(c['shape'], int) else \
+            {'tuple': tuple, 'list': list, 'array': np.array}[c.get('shape_form', 'tuple')](c['shape'])
+        return lambda: lentil.detector.dark_current(rate, shp, c['fpn'], seed=seed_of(c))
     if op == 'ps':
-        dt = {'float': float, 'int': int, 'bool': bool}[c.get('mask_dtype', 'float')]
+        dt = {'float': float, 'int': int, 'bool': bool, 'uint8': np.uint8, 'int32': np.int32, 'float32': np.float32,
+              'uint16': np.uint16}[c.get('mask_dtype', 'float')]
         mask = np.array(c['mask'], dtype=dt)
         return lambda: lentil.wfe.power_spectrum(mask.copy(), c['pixelscale'], c['rms'], c['hpf'], c['exp'], seed=seed_of(c))
     if op == 'rule07':
@@ -817,7 +915,7 @@ def oracle(c, impl):
         if 'err' in impl:
             return f'dark_current raised {impl["err"]}'
         out = np.asarray(impl['out'], dtype=float)
-        want = list(c['shape']) if c['shape'] is not None else [1]
+        want = list(dark_shape(c)) if c['shape'] is not None else [1]
         if list(out.shape) != want:
             return f'shape {list(out.shape)} is not the requested {want}'
         if not np.all(out == np.floor(out)):
@@ -928,6 +1026,11 @@ def moment_checks(seed):
     x = D.read_noise(img, e, seed=seed) - img
     band('read noise mean', x.mean(), 0.0, 4 * e / math.sqrt(N))
     band('read noise standard deviation', x.std(), e, 4 * e / math.sqrt(2 * N))
+    for dt in ('int64', 'uint16', 'float32'):       # the applied read noise must not depend on the dtype of the frame
+        imgt = np.full(NS, 100).astype(dt)
+        x = D.read_noise(imgt, e, seed=seed) - 100.0
+        band(f'read noise mean on a {dt} frame', x.mean(), 0.0, 4 * e / math.sqrt(N))
+        band(f'read noise standard deviation on a {dt} frame', x.std(), e, 4 * e / math.sqrt(2 * N))
     d = D.dark_current(100.0, NS, 0.25, seed=seed)
     if d.min() < 0 or np.any(d != np.floor(d)) or d.shape != NS:
         bad.append({'case': {'test': 'dark fpn support', 'seed': seed}, 'impl': None, 'what': 'dark frame with FPN negative/non-integer'})
@@ -969,6 +1072,6 @@ def extra(tier, rng):
         viol += moment_checks(s)
     viol += different_seed_checks(seeds)
     rep = {'labelled': 'numeric tests (facts about numpy generators, not theorems)', 'moment_seeds': seeds,
-           'frame': list(NS), 'band': '4 sigma', 'moment_tests_per_seed': 10, 'different_seed_pairs': len(seeds),
+           'frame': list(NS), 'band': '4 sigma', 'moment_tests_per_seed': 16, 'different_seed_pairs': len(seeds),
            'failed': len(viol)}
     return {'report': rep, 'violations': viol}
